@@ -11,6 +11,7 @@ CFG = {'module': 'Dnp3.Props.C03',
               'overflow_reported',
               'event_ids_increase',
               'event_is_recorded_live_in_order',
+              'class_report_in_configured_variation',
               'event_only_for_class_points',
               'kept_until_released_or_discarded',
               'overflow_discards_oldest_of_type',
